@@ -12,10 +12,10 @@ from mc.report import Run, jhash
 from mc.space import explore
 
 PROP = "C10"
-RULE = ("(a) matcher histories: for every selector of Ssel and every sequence of match(rec_i) of length <=3 (4 thorough) over 6 "
+RULE = ("(a) matcher histories: for every selector of Ssel and every sequence of match(rec_i) of length <=3 (4 thorough) over 7 "
         "records, both engines: the last result (value or exception class) equals a fresh selector's on the same record, and the "
         "record is unchanged; states = distinct canonical matcher states (names bound in the matcher namespace + last record "
-        "class). (b) adapters: 7 readers x all record sequences <=3 over 4 record values x selectors x {text, Selector, "
+        "class). (b) adapters: 12 reader configurations x all record sequences <=3 over 4 record values x selectors x {text, Selector, "
         "CompiledSelector}: list(reader(selector=s)) == [r for r in reader() if fresh.match(r)] on obs incl. position/class of an "
         "exception. non-trivial = history longer than 1 / non-empty sequence")
 
@@ -42,7 +42,7 @@ def hist_records():
         other = recs.build_record(rs("sel/other", [["string", "o"], ["varint", "n"], ["string[]", "l"]], ["'other'", "77", "['a', 'b']"]))
         grouped = GroupedRecord("sel/grouped", [recs.build_record(selgrammar.RECORDS[5]), recs.build_record(
             rs("sel/other", [["string", "o"], ["varint", "n"]], ["'other'", "1"]))])
-        _RECS.extend(base + [other, grouped])
+        _RECS.extend(base + [other, grouped, recs.build_record(selgrammar.SAME_NAME_OTHER_FIELDS)])
     return _RECS
 
 
@@ -122,11 +122,17 @@ ADAPTERS = {
     "avro": ["x1", "y2", "Xn", "x3"],
     "csvfile": ["x1", "y2", "Xn", "x3"],
     "sqlite": ["x1", "y2", "Xn", "B"],
+    "stream-url+fileobj": ["x1", "y2", "Xn", "B"],
+    "jsonfile-url+fileobj": ["x1", "y2", "Xn", "B"],
+    "avro-url+fileobj": ["x1", "y2", "Xn", "x3"],
+    "fileobj": ["x1", "y2", "Xn", "B"],
 }
 ASEL = ["r.n == 1", "r.n > 1", "r.a == 'x'", "'x' in r.a", "lower(r.a) == 'x'", "any(c == 'x' for c in r.a)", "Type.string == 'x'", "r.zz == 1",
         "name(r) == 't/a'", "field_contains(r, ['a'], ['X'])", "r.n in [1, 2]", "not r.n", "r.n == '1'", "r.a == 'x' and r.n", "True", "False",
         "r.b == 'x' or r.a == 'y'", "any(x == 'q' for x in r.l)", "r.n + 1 == 3", "1 < r.n < 3", "r._source == None", "Type.varint >= 2",
-        "field_regex(r, ['a', 'b'], '^x')", "has_field(r, 'l')", "names(r) == names(r)", "r.n < 'a'"]
+        "field_regex(r, ['a', 'b'], '^x')", "has_field(r, 'l')", "names(r) == names(r)", "r.n < 'a'",
+        "r.n == 1 or name(r) == 't/b'", "r.zz == 1 or True", "r.n == 2 or has_field(r, 'b')", "r.n == 1 or Type.string == 'x'", "not r.n == 1",
+        "r.n is not None", "r.zz != 1 or name(r) == 't/b'", "any(f.name == 'l' for f in fields('string[]'))", "field_contains(r, ['b', 'a'], ['x'])"]
 _n = [0]
 
 
@@ -136,8 +142,12 @@ def write_source(adapter, records):
     d = os.environ["VERIF_SCRATCH"]
     _n[0] += 1
     base = os.path.join(d, "c10-%d-%d" % (os.getpid(), _n[0]))
-    if adapter in ("streamreader", "path"):
+    if adapter in ("streamreader", "path", "stream-url+fileobj", "fileobj"):
         p, uri = base + ".records", base + ".records"
+    elif adapter == "jsonfile-url+fileobj":
+        p, uri = base + ".json", base + ".json"
+    elif adapter == "avro-url+fileobj":
+        p, uri = base + ".avro", base + ".avro"
     elif adapter == "path.gz":
         p, uri = base + ".records.gz", base + ".records.gz"
     elif adapter == "jsonfile":
@@ -165,6 +175,14 @@ def open_reader(adapter, p, selector=None):
         return RecordStreamReader(open(p, "rb"), selector=selector)
     if adapter == "sqlite":
         return RecordReader("sqlite://" + p, selector=selector)
+    if adapter == "stream-url+fileobj":
+        return RecordReader("stream://", fileobj=open(p, "rb"), selector=selector)
+    if adapter == "jsonfile-url+fileobj":
+        return RecordReader("jsonfile://", fileobj=open(p, "r"), selector=selector)
+    if adapter == "avro-url+fileobj":
+        return RecordReader("avro://", fileobj=open(p, "rb"), selector=selector)
+    if adapter == "fileobj":
+        return RecordReader(fileobj=open(p, "rb"), selector=selector)
     return RecordReader(p, selector=selector)
 
 
@@ -242,7 +260,7 @@ def run_adapter(case):
 
 def cases(tier):
     L = 4 if tier == "thorough" else 3
-    nrec = 6
+    nrec = 7
     for expr in SSEL:
         for k in range(1, L + 1):
             for hist in itertools.product(range(nrec), repeat=k):
@@ -250,7 +268,7 @@ def cases(tier):
     for adapter, alphabet in ADAPTERS.items():
         for k in range(0, 4):
             for seq in itertools.product(alphabet, repeat=k):
-                if adapter in ("avro",) and k == 0:
+                if adapter in ("avro", "avro-url+fileobj") and k == 0:
                     continue
                 yield {"kind": "adapter", "adapter": adapter, "seq": list(seq)}
 
